@@ -17,7 +17,8 @@ fn string_to_cps(s: &str) -> Value {
 	json!(s.chars().map(|c| c as u32).collect::<Vec<_>>())
 }
 fn canon_num(f: f64) -> String {
-	format!("{:e}", f)
+	// (-0 and 0 are the same number)
+	format!("{:e}", if f == 0.0 { 0.0 } else { f })
 }
 
 fn build(v: &Value) -> JsonValue {
